@@ -110,3 +110,50 @@ Proof.
   - intros i Hi. split; [apply (slp_box_scenarios P fut cs X W Hf Hb i Hi)|]. apply (slp_rows_ok P fut cs X W); assumption.
   - intros i j Hj E. rewrite slp_point_nth by exact Hj. unfold scol. rewrite E. reflexivity.
 Qed.
+
+(* ---------- the mapping of the extended problem (stoch_lin_prog.py:66-75): one copy of the rows of the future variables per sample,
+   re-indexed to the sample's block; the index keeps enumerating the variables whatever the number of rows per variable ---------- *)
+From EAO Require Import Mapping.
+Definition slp_map (mp : list mrow) (fut : list bool) (nS n : nat) : list mrow :=
+  mp ++ flat_map (fun i => map (fun r => Build_mrow (n + i * nfut fut + rank fut (m_var r)) (m_asset r) (m_node r) (m_type r) (m_step r)
+                                                    (m_factor r) (m_name r) (m_bool r))
+                               (filter (fun r => nth (m_var r) fut false) mp)) (seq 0 nS).
+
+Lemma flat_sel_length (g : Q -> Q) fut (cs : list vec) n : List.length fut = n -> Forall (fun c : vec => List.length c = n) cs ->
+  List.length (flat_map (fun c => map g (sel_fut fut c)) cs) = (List.length cs * nfut fut)%nat.
+Proof.
+  intros Hf Hc. induction Hc as [|c cs Lc _ IH]; [reflexivity|]. cbn [flat_map List.length]. rewrite app_length, map_length, IH.
+  rewrite sel_fut_length by (rewrite Lc, Hf; reflexivity). cbn [Nat.mul]. reflexivity.
+Qed.
+
+Lemma slp_nvars P fut cs : List.length fut = nvars P -> Forall (fun c : vec => List.length c = nvars P) cs ->
+  nvars (slp_lp P fut cs) = (nvars P + List.length cs * nfut fut)%nat.
+Proof.
+  intros Hf Hc. unfold nvars at 1, slp_lp. cbn [lp_c]. rewrite app_length, map_length, combine_length, seq_length, combine_length.
+  fold (nvars P). rewrite Hf. rewrite !Nat.min_id. f_equal. apply (flat_sel_length _ fut cs (nvars P) Hf Hc).
+Qed.
+
+(* every row of the extended mapping points to an existing variable of the extended problem, and the copies of a variable's rows all
+   point to the same (new) variable: row k of sample i of variable j -> n + i*nfut + rank j *)
+Theorem slp_map_wf P mp fut cs :
+  List.length fut = nvars P -> Forall (fun c : vec => List.length c = nvars P) cs ->
+  Forall (fun r => (m_var r < nvars P)%nat) mp ->
+  Forall (fun r => (m_var r < nvars (slp_lp P fut cs))%nat) (slp_map mp fut (List.length cs) (nvars P)).
+Proof.
+  intros Hf Hc Hm. rewrite (slp_nvars P fut cs Hf Hc). unfold slp_map. apply Forall_app. split.
+  - eapply Forall_impl; [|exact Hm]. intros r Hr. cbn beta in *. lia.
+  - apply Forall_forall. intros r Hr. apply in_flat_map in Hr. destruct Hr as (i & Hi & Hr). apply in_seq in Hi.
+    apply in_map_iff in Hr. destruct Hr as (r0 & <- & Hr0). apply filter_In in Hr0. destruct Hr0 as [_ Hfut]. cbn [m_var].
+    pose proof (rank_lt fut (m_var r0) Hfut) as Hrk.
+    assert ((i + 1) * nfut fut <= List.length cs * nfut fut)%nat by (apply Nat.mul_le_mono_r; lia). lia.
+Qed.
+
+(* the new variable a copied row points to is the column the rows of that scenario use for the variable (SLP.scol) *)
+Theorem slp_map_matches_columns mp fut nS n i r :
+  (i < nS)%nat -> In r mp -> nth (m_var r) fut false = true ->
+  In (Build_mrow (scol n fut (S i) (m_var r)) (m_asset r) (m_node r) (m_type r) (m_step r) (m_factor r) (m_name r) (m_bool r))
+     (slp_map mp fut nS n).
+Proof.
+  intros Hi Hr Hf. unfold slp_map. apply in_or_app. right. apply in_flat_map. exists i. split; [apply in_seq; lia|].
+  apply in_map_iff. exists r. split; [|apply filter_In; split; assumption]. unfold scol. rewrite Hf. reflexivity.
+Qed.
